@@ -168,6 +168,18 @@ pub fn gen_build_case(rng: &mut Rng, tier: Tier) -> BuiltCase {
     let user = format!("file:///p/wasmuser{}.ts", k);
     let mut src = ModSrc::default();
     src.imports.push(Imp { form: rng.pick(&[Form::Static, Form::Named, Form::Dynamic, Form::TypeOnly, Form::Named]).clone(), text: wasm_spec.clone() });
+    // source-phase imports (`import source w from "x"`): of a WebAssembly file nothing else imports
+    // (an asset load), and of something that is not WebAssembly (an error entry)
+    if rng.chance(50) {
+      let t = format!("file:///p/wsp{}.wasm", k);
+      world.entries.insert(t.clone(), Entry::Module { src: ModSrc::default(), raw: Some(vec![0x00, 0x61, 0x73, 0x6d, 0x01, 0x00, 0x00, 0x00]), headers: None });
+      src.imports.push(Imp { form: Form::SourcePhase, text: t });
+    }
+    if rng.chance(30) {
+      let t = format!("file:///p/spx{}.ts", k);
+      world.entries.insert(t.clone(), Entry::Module { src: ModSrc::default(), raw: None, headers: None });
+      src.imports.push(Imp { form: Form::SourcePhase, text: t });
+    }
     world.entries.insert(user.clone(), Entry::Module { src, raw: None, headers: None });
     roots.push(if rng.chance(25) { wasm_spec } else { user });
   }
